@@ -19,8 +19,8 @@ Lemma spop_w_offset_heap s h s1 v : spop_w_offset s h = (s1, v) -> st_heap s1 = 
 Proof. unfold spop_w_offset. destruct (vs_step _ _ _) as [k []]; intros H; inversion H; reflexivity. Qed.
 Lemma push_frame_heap s f s1 : push_frame s f = Some s1 -> st_heap s1 = st_heap s.
 Proof. unfold push_frame. destruct (_ <=? _); intros H; inversion H; reflexivity. Qed.
-Lemma push_next_heap ip s v ip' s' : push_next ip s v = SNext ip' s' -> st_heap s' = st_heap s.
-Proof. unfold push_next. destruct (spush s v) eqn:E; intros H; inversion H; subst. eapply spush_heap; eauto. Qed.
+Lemma push_next_heap ip s v s' : res_st (push_next ip s v) = Some s' -> st_heap s' = st_heap s.
+Proof. apply res_st_push_next. Qed.
 
 Ltac note_heap :=
   repeat match goal with
@@ -31,16 +31,16 @@ Ltac note_heap :=
          | H : spop_w_offset _ _ = (_, _) |- _ => apply spop_w_offset_heap in H
          | H : push_frame _ _ = Some _ |- _ => apply push_frame_heap in H
          | H : write_local _ _ _ _ = Some _ |- _ => apply write_local_heap in H
-         | H : push_next _ _ _ = SNext _ _ |- _ => apply push_next_heap in H
+         | H : res_st (push_next _ _ _) = Some _ |- _ => apply push_next_heap in H
          end.
 
 Ltac crack H :=
   repeat match type of H with
-         | context [match ?x with _ => _ end] => destruct x eqn:?; try discriminate H
+         | context [match ?x with _ => _ end] => destruct x eqn:?; cbn [res_st] in H; try discriminate H
          end.
 
 Ltac heap_done H :=
-  crack H; try (inversion H; subst; clear H); note_heap;
+  crack H; cbn [res_st] in H; try (inversion H; subst; clear H); note_heap;
   cbn [st_heap set_calls set_globals set_stack set_open set_log] in *; congruence.
 
 
@@ -77,18 +77,29 @@ Proof. intros Hs Ha t H. apply Hs in H. eapply Ha; eauto. Qed.
 Lemma no_table_at_obj h a o : hget h a = Some o -> (forall t, o <> OTable t) -> no_table_at h a.
 Proof. intros Ha Ho t H. rewrite Ha in H. inversion H. eapply Ho; eauto. Qed.
 
-Lemma close_upvalues_go_tables : forall fuel top s s',
-  close_upvalues_go fuel top s = ClOk s' -> same_tables (st_heap s) (st_heap s').
+Lemma close_upvalues_go_tables : forall fuel top s,
+  match close_upvalues_go fuel top s with
+  | ClOk s' | ClErr _ s' => same_tables (st_heap s) (st_heap s')
+  | ClStop _ _ => True
+  end.
 Proof.
-  induction fuel as [|f IH]; intros top s s' H; cbn [close_upvalues_go] in H; [discriminate|].
-  destruct (st_open s) as [a|]; [|inversion H; apply same_tables_refl].
-  destruct (hget (st_heap s) a) as [[| | | | |u]|] eqn:Ea; try discriminate.
-  destruct (u_loc u) as [l|]; [|discriminate].
-  destruct (l <? top); [inversion H; apply same_tables_refl|].
-  apply IH in H. cbn [set_open set_heap st_heap] in H.
-  eapply same_tables_trans; [|exact H]. apply same_tables_hset; [|intros; discriminate].
-  eapply no_table_at_obj; [exact Ea | intros; discriminate].
+  induction fuel as [|f IH]; intros top s; cbn [close_upvalues_go]; [exact I|].
+  destruct (st_open s) as [a|]; [|apply same_tables_refl].
+  destruct (hget (st_heap s) a) as [[| | | | |u]|] eqn:Ea; try exact I; try apply same_tables_refl.
+  destruct (u_loc u) as [l|]; [|exact I].
+  destruct (l <? top); [apply same_tables_refl|].
+  match goal with |- match close_upvalues_go f top ?x with _ => _ end => specialize (IH top x) end.
+  destruct (close_upvalues_go f top _); try exact I; cbn [set_open set_heap st_heap] in IH;
+    (eapply same_tables_trans; [|exact IH]; apply same_tables_hset; [|intros; discriminate];
+     eapply no_table_at_obj; [exact Ea | intros; discriminate]).
 Qed.
+
+(* an error result keeps the heap of a state reached so far *)
+Ltac dis H :=
+  first [ discriminate H
+        | (cbn [res_st] in H; inversion H; subst; clear H;
+           first [ apply same_tables_refl
+                 | (apply same_tables_eq; note_heap; cbn [st_heap set_calls set_stack set_open] in *; congruence) ]) ].
 
 Section HeapSame.
 Variable F : fops.
@@ -96,141 +107,147 @@ Variable bld : build.
 Variable P : program.
 Variable reenter : N -> state -> rres.
 
-Lemma binary_op_heap ip s op ip' s' : binary_op ip s op = SNext ip' s' -> st_heap s' = st_heap s.
+Lemma binary_op_heap ip s op s' : res_st (binary_op ip s op) = Some s' -> st_heap s' = st_heap s.
 Proof. unfold binary_op, of_vres. intros H. heap_done H. Qed.
-Lemma i_5_heap opc ip0 ip s ip' s' : i_5 P opc ip0 ip s = SNext ip' s' -> st_heap s' = st_heap s.
+Lemma i_5_heap opc ip0 ip s s' : res_st (i_5 P opc ip0 ip s) = Some s' -> st_heap s' = st_heap s.
 Proof. unfold i_5. intros H. heap_done H. Qed.
-Lemma i_6_heap opc ip0 ip s ip' s' : i_6 P opc ip0 ip s = SNext ip' s' -> st_heap s' = st_heap s.
+Lemma i_6_heap opc ip0 ip s s' : res_st (i_6 P opc ip0 ip s) = Some s' -> st_heap s' = st_heap s.
 Proof. unfold i_6. intros H. heap_done H. Qed.
-Lemma i_17_heap opc ip0 ip s ip' s' : i_17 P opc ip0 ip s = SNext ip' s' -> st_heap s' = st_heap s.
+Lemma i_17_heap opc ip0 ip s s' : res_st (i_17 P opc ip0 ip s) = Some s' -> st_heap s' = st_heap s.
 Proof. unfold i_17. intros H. heap_done H. Qed.
-Lemma i_18_heap opc ip0 ip s ip' s' : i_18 P opc ip0 ip s = SNext ip' s' -> st_heap s' = st_heap s.
+Lemma i_18_heap opc ip0 ip s s' : res_st (i_18 P opc ip0 ip s) = Some s' -> st_heap s' = st_heap s.
 Proof. unfold i_18. intros H. heap_done H. Qed.
-Lemma i_19_heap opc ip0 ip s ip' s' : i_19 P opc ip0 ip s = SNext ip' s' -> st_heap s' = st_heap s.
+Lemma i_19_heap opc ip0 ip s s' : res_st (i_19 P opc ip0 ip s) = Some s' -> st_heap s' = st_heap s.
 Proof. unfold i_19. intros H. heap_done H. Qed.
-Lemma i_20_heap opc ip0 ip s ip' s' : i_20 P opc ip0 ip s = SNext ip' s' -> st_heap s' = st_heap s.
+Lemma i_20_heap opc ip0 ip s s' : res_st (i_20 P opc ip0 ip s) = Some s' -> st_heap s' = st_heap s.
 Proof. unfold i_20. intros H. heap_done H. Qed.
-Lemma i_21_heap opc ip0 ip s ip' s' : i_21 opc ip0 ip s = SNext ip' s' -> st_heap s' = st_heap s.
+Lemma i_21_heap opc ip0 ip s s' : res_st (i_21 opc ip0 ip s) = Some s' -> st_heap s' = st_heap s.
 Proof.
   unfold i_21. intros H. destruct (top_offset s) as [off|]; [|discriminate]. inversion H; subst.
   unfold sclear_until. cbn [vs_step fst set_stack st_heap]. reflexivity.
 Qed.
-Lemma i_23_heap opc ip0 ip s ip' s' : i_23 opc ip0 ip s = SNext ip' s' -> st_heap s' = st_heap s.
+Lemma i_23_heap opc ip0 ip s s' : res_st (i_23 opc ip0 ip s) = Some s' -> st_heap s' = st_heap s.
 Proof. unfold i_23. intros H. heap_done H. Qed.
-Lemma i_27_heap opc ip0 ip s ip' s' : i_27 F opc ip0 ip s = SNext ip' s' -> st_heap s' = st_heap s.
+Lemma i_27_heap opc ip0 ip s s' : res_st (i_27 F opc ip0 ip s) = Some s' -> st_heap s' = st_heap s.
 Proof. unfold i_27. intros H. heap_done H. Qed.
-Lemma i_28_heap opc ip0 ip s ip' s' : i_28 bld P opc ip0 ip s = SNext ip' s' -> st_heap s' = st_heap s.
+Lemma i_28_heap opc ip0 ip s s' : res_st (i_28 bld P opc ip0 ip s) = Some s' -> st_heap s' = st_heap s.
 Proof. unfold i_28. intros H. heap_done H. Qed.
-Lemma i_29_30_heap opc ip0 ip s ip' s' : i_29_30 F bld P opc ip0 ip s = SNext ip' s' -> st_heap s' = st_heap s.
+Lemma i_29_30_heap opc ip0 ip s s' : res_st (i_29_30 F bld P opc ip0 ip s) = Some s' -> st_heap s' = st_heap s.
 Proof. unfold i_29_30. intros H. heap_done H. Qed.
-Lemma i_32_heap opc ip0 ip s ip' s' : i_32 F opc ip0 ip s = SNext ip' s' -> st_heap s' = st_heap s.
+Lemma i_32_heap opc ip0 ip s s' : res_st (i_32 F opc ip0 ip s) = Some s' -> st_heap s' = st_heap s.
 Proof. unfold i_32. intros H. heap_done H. Qed.
-Lemma i_34_heap opc ip0 ip s ip' s' : i_34 opc ip0 ip s = SNext ip' s' -> st_heap s' = st_heap s.
+Lemma i_34_heap opc ip0 ip s s' : res_st (i_34 opc ip0 ip s) = Some s' -> st_heap s' = st_heap s.
 Proof. unfold i_34. intros H. heap_done H. Qed.
-Lemma i_35_heap opc ip0 ip s ip' s' : i_35 P opc ip0 ip s = SNext ip' s' -> st_heap s' = st_heap s.
+Lemma i_35_heap opc ip0 ip s s' : res_st (i_35 P opc ip0 ip s) = Some s' -> st_heap s' = st_heap s.
 Proof. unfold i_35. intros H. heap_done H. Qed.
-Lemma i_36_heap opc ip0 ip s ip' s' : i_36 F bld P opc ip0 ip s = SNext ip' s' -> st_heap s' = st_heap s.
+Lemma i_36_heap opc ip0 ip s s' : res_st (i_36 F bld P opc ip0 ip s) = Some s' -> st_heap s' = st_heap s.
 Proof. unfold i_36. intros H. heap_done H. Qed.
 
 (* CallFunction of a script function or closure *)
-Lemma i_11_heap opc ip0 ip s ip' s' :
+Lemma i_11_heap opc ip0 ip s s' :
   (forall a h, top1 s = VObj a -> hget (st_heap s) a <> Some (ONative h)) ->
-  i_11 F P reenter opc ip0 ip s = SNext ip' s' -> st_heap s' = st_heap s.
+  res_st (i_11 F P reenter opc ip0 ip s) = Some s' -> st_heap s' = st_heap s.
 Proof.
   unfold i_11, top1. intros Hn H. destruct (spop s) as [s1 fv] eqn:E1. cbn [snd] in Hn.
   pose proof (spop_heap _ _ _ E1) as Hh.
-  destruct fv as [| | |a]; try discriminate. destruct (hget (st_heap s1) a) as [o|] eqn:Ea; [|discriminate].
-  destruct o; try discriminate.
+  assert (Herr : forall e ip1, res_st (SErr e ip1 s1) = Some s' -> st_heap s' = st_heap s).
+  { intros e ip1 E. cbn [res_st] in E. inversion E; subst. exact Hh. }
+  destruct fv as [| | |a]; try (eapply Herr; exact H).
+  destruct (hget (st_heap s1) a) as [o|] eqn:Ea; [|discriminate H].
+  destruct o; try (eapply Herr; exact H).
   - heap_done H.
   - exfalso. apply (Hn a h eq_refl). rewrite <- Hh. exact Ea.
   - heap_done H.
 Qed.
 
 (* allocation of an object that is not a table *)
-Lemma alloc_push_tables ip s o ip' s' : (forall t, o <> OTable t) ->
-  (let '(s1, a) := salloc s o in push_next ip s1 (VObj a)) = SNext ip' s' -> same_tables (st_heap s) (st_heap s').
+Lemma alloc_push_tables ip s o s' : (forall t, o <> OTable t) ->
+  res_st (let '(s1, a) := salloc s o in push_next ip s1 (VObj a)) = Some s' -> same_tables (st_heap s) (st_heap s').
 Proof.
   intros Ho H. unfold salloc, halloc in H. apply push_next_heap in H. rewrite H. cbn [set_heap st_heap].
   apply same_tables_alloc; exact Ho.
 Qed.
-Lemma i_8_tables opc ip0 ip s ip' s' : i_8 P opc ip0 ip s = SNext ip' s' -> same_tables (st_heap s) (st_heap s').
+Lemma i_8_tables opc ip0 ip s s' : res_st (i_8 P opc ip0 ip s) = Some s' -> same_tables (st_heap s) (st_heap s').
 Proof.
-  unfold i_8. intros H. destruct (op_u32 P ip); [|discriminate]. destruct (read_str _ _); try discriminate.
+  unfold i_8. intros H. destruct (op_u32 P ip); [|dis H]. destruct (read_str _ _); try dis H.
   eapply alloc_push_tables; [|exact H]. intros; discriminate.
 Qed.
-Lemma i_38_tables opc ip0 ip s ip' s' : i_38 P opc ip0 ip s = SNext ip' s' -> same_tables (st_heap s) (st_heap s').
+Lemma i_38_tables opc ip0 ip s s' : res_st (i_38 P opc ip0 ip s) = Some s' -> same_tables (st_heap s) (st_heap s').
 Proof.
-  unfold i_38. intros H. destruct (op_u32 P ip); [|discriminate]. destruct (read_str _ _); try discriminate.
+  unfold i_38. intros H. destruct (op_u32 P ip); [|dis H]. destruct (read_str _ _); try dis H.
   eapply alloc_push_tables; [|exact H]. intros; discriminate.
 Qed.
-Lemma i_37_42_tables opc ip0 ip s ip' s' : i_37_42 P opc ip0 ip s = SNext ip' s' -> same_tables (st_heap s) (st_heap s').
+Lemma i_37_42_tables opc ip0 ip s s' : res_st (i_37_42 P opc ip0 ip s) = Some s' -> same_tables (st_heap s) (st_heap s').
 Proof.
-  unfold i_37_42. intros H. destruct (op_u32 P ip); [|discriminate]. destruct (op_u32 P (ip + 4)); [|discriminate].
+  unfold i_37_42. intros H. destruct (op_u32 P ip); [|dis H]. destruct (op_u32 P (ip + 4)); [|dis H].
   eapply alloc_push_tables; [|exact H]. destruct (opc =? 37)%N; intros; discriminate.
 Qed.
 
 (* Return / CloseUpvalue *)
-Lemma i_22_tables opc ip0 ip s ip' s' : i_22 opc ip0 ip s = SNext ip' s' -> same_tables (st_heap s) (st_heap s').
+Lemma i_22_tables opc ip0 ip s s' : res_st (i_22 opc ip0 ip s) = Some s' -> same_tables (st_heap s) (st_heap s').
 Proof.
-  unfold i_22. intros H. destruct (st_calls s) as [|fr rest]; [discriminate|]. cbv zeta in H.
-  destruct (close_upvalues_from _ _) as [s2| |] eqn:Ec; try discriminate.
-  apply close_upvalues_go_tables in Ec. cbn [set_calls st_heap] in Ec.
-  destruct (sclear_until s2 _) as [s3 v] eqn:E3. apply sclear_until_heap in E3.
-  destruct rest; [discriminate|]. apply push_next_heap in H. rewrite H, E3. exact Ec.
+  unfold i_22. intros H. destruct (st_calls s) as [|fr rest]; [dis H|]. cbv zeta in H.
+  pose proof (close_upvalues_go_tables (S (length (st_heap (set_calls s rest)))) (N.to_nat (fr_off fr)) (set_calls s rest)) as Ec.
+  unfold close_upvalues_from in H. destruct (close_upvalues_go _ _ _) as [s2|e s2|]; [| |discriminate H].
+  - cbn [set_calls st_heap] in Ec. destruct (sclear_until s2 _) as [s3 v] eqn:E3. apply sclear_until_heap in E3.
+    destruct rest; [cbn [res_st] in H; inversion H; subst; rewrite E3; exact Ec|].
+    apply push_next_heap in H. rewrite H, E3. exact Ec.
+  - cbn [res_st] in H. inversion H; subst. exact Ec.
 Qed.
-Lemma i_46_tables opc ip0 ip s ip' s' : i_46 P opc ip0 ip s = SNext ip' s' -> same_tables (st_heap s) (st_heap s').
+Lemma i_46_tables opc ip0 ip s s' : res_st (i_46 P opc ip0 ip s) = Some s' -> same_tables (st_heap s) (st_heap s').
 Proof.
-  unfold i_46. intros H. destruct (op_u32 P ip); [|discriminate]. destruct (top_offset s); [|discriminate].
-  destruct (close_upvalues_from _ _) as [s2| |] eqn:Ec; try discriminate.
-  apply close_upvalues_go_tables in Ec. inversion H; subst. exact Ec.
+  unfold i_46. intros H. destruct (op_u32 P ip); [|dis H]. destruct (top_offset s); [|dis H].
+  pose proof (close_upvalues_go_tables (S (length (st_heap s))) (n0 + N.to_nat n) s) as Ec.
+  unfold close_upvalues_from in H. destruct (close_upvalues_go _ _ _) as [s2|e s2|]; [| |discriminate H];
+    cbn [res_st] in H; inversion H; subst; exact Ec.
 Qed.
 
 (* SetUpvalue / ReadUpvalue *)
-Lemma i_43_44_tables opc ip0 ip s ip' s' : i_43_44 P opc ip0 ip s = SNext ip' s' -> same_tables (st_heap s) (st_heap s').
+Lemma i_43_44_tables opc ip0 ip s s' : res_st (i_43_44 P opc ip0 ip s) = Some s' -> same_tables (st_heap s) (st_heap s').
 Proof.
-  unfold i_43_44. intros H. destruct (op_u32 P ip); [|discriminate]. cbv zeta in H.
+  unfold i_43_44. intros H. destruct (op_u32 P ip); [|dis H]. cbv zeta in H.
   assert (Hs1 : forall s1 wv, (if (opc =? 43)%N then spop s else (s, VNil)) = (s1, wv) -> st_heap s1 = st_heap s).
   { intros s1 wv E. destruct (opc =? 43)%N; [eapply spop_heap; eauto | inversion E; reflexivity]. }
   destruct (if (opc =? 43)%N then spop s else (s, VNil)) as [s1 wv] eqn:E1. pose proof (Hs1 _ _ eq_refl) as Hh.
-  destruct (st_calls s1) as [|fr rest]; [discriminate|]. destruct (fr_clo fr) as [ca|]; [|discriminate].
-  destruct (hget (st_heap s1) ca) as [[| | | |hd ar ups|]|]; try discriminate.
-  destruct (nth_error ups _) as [ua|]; [|discriminate].
-  destruct (hget (st_heap s1) ua) as [[| | | | |u]|] eqn:Eua; try discriminate.
+  destruct (st_calls s1) as [|fr rest]; [dis H|]. destruct (fr_clo fr) as [ca|]; [|dis H].
+  destruct (hget (st_heap s1) ca) as [[| | | |hd ar ups|]|]; try dis H.
+  destruct (nth_error ups _) as [ua|]; [|dis H].
+  destruct (hget (st_heap s1) ua) as [[| | | | |u]|] eqn:Eua; try dis H.
   destruct (opc =? 43)%N.
-  - destruct (u_loc u); inversion H; subst; cbn [sraw_set set_stack set_heap st_heap]; rewrite <- Hh;
+  - cbn [res_st] in H. destruct (u_loc u); cbn [res_st] in H; inversion H; subst; cbn [sraw_set set_stack set_heap st_heap]; rewrite <- Hh;
       [apply same_tables_refl|].
     apply same_tables_hset; [eapply no_table_at_obj; [exact Eua | intros; discriminate] | intros; discriminate].
   - apply push_next_heap in H. rewrite H, Hh. apply same_tables_refl.
 Qed.
 
 (* RegisterUpvalue *)
-Lemma i_45_tables opc ip0 ip s ip' s' : i_45 P opc ip0 ip s = SNext ip' s' -> same_tables (st_heap s) (st_heap s').
+Lemma i_45_tables opc ip0 ip s s' : res_st (i_45 P opc ip0 ip s) = Some s' -> same_tables (st_heap s) (st_heap s').
 Proof.
   unfold i_45. intros H.
-  destruct (read_le (p_code P) ip 1) as [index|]; [|discriminate]. destruct (read_le (p_code P) (ip + 1) 1) as [is_local|]; [|discriminate].
+  destruct (read_le (p_code P) ip 1) as [index|]; [|dis H]. destruct (read_le (p_code P) (ip + 1) 1) as [is_local|]; [|dis H].
   cbv zeta in H. destruct (spop s) as [s1 cv] eqn:E1. apply spop_heap in E1. rewrite <- E1.
-  destruct cv as [| | |ca]; try discriminate.
-  destruct (hget (st_heap s1) ca) as [[| | | |ch car cups|]|] eqn:Eca; try discriminate.
+  destruct cv as [| | |ca]; try dis H.
+  destruct (hget (st_heap s1) ca) as [[| | | |ch car cups|]|] eqn:Eca; try dis H.
   assert (Hca : no_table_at (st_heap s1) ca) by (eapply no_table_at_obj; [exact Eca | intros; discriminate]).
   assert (Hclo : forall x sx, same_tables (st_heap s1) (st_heap sx) ->
             same_tables (st_heap s1) (st_heap (set_heap sx (hset (st_heap sx) ca (OClo ch car (cups ++ [x])))))).
   { intros x sx Hs. cbn [set_heap st_heap]. eapply same_tables_trans; [exact Hs|].
     apply same_tables_hset; [eapply no_table_at_same; eauto | intros; discriminate]. }
   destruct (negb (is_local =? 0)%N).
-  - destruct (top_offset s1) as [off|]; [|discriminate]. destruct (scount s1 <=? _); [discriminate|].
-    destruct (walk_open _ _ _ _ _) as [prev cur|]; [|discriminate].
-    match type of H with (if ?c then _ else _) = _ => destruct c end.
-    + destruct cur; [|discriminate]. inversion H; subst. apply Hclo. apply same_tables_refl.
-    + unfold salloc, halloc in H. inversion H; subst. apply Hclo.
+  - destruct (top_offset s1) as [off|]; [|dis H]. destruct (scount s1 <=? _); [dis H|].
+    destruct (walk_open _ _ _ _ _) as [prev cur|]; [|dis H].
+    match type of H with res_st (if ?c then _ else _) = _ => destruct c end.
+    + destruct cur; [|dis H]. cbn [res_st] in H. inversion H; subst. apply Hclo. apply same_tables_refl.
+    + unfold salloc, halloc in H. cbn [res_st] in H. inversion H; subst. apply Hclo.
       set (h2 := st_heap s1 ++ [OUp (mkUp (Some (off + N.to_nat index)) VNil cur)]).
       assert (H2 : same_tables (st_heap s1) h2) by (apply same_tables_alloc; intros; discriminate).
       destruct prev as [pa|]; [|exact H2]. cbn [set_heap st_heap].
       destruct (hget h2 pa) as [[| | | | |pu]|] eqn:Epa; try exact H2.
       cbn [set_heap st_heap]. eapply same_tables_trans; [exact H2|].
       apply same_tables_hset; [eapply no_table_at_obj; [exact Epa | intros; discriminate] | intros; discriminate].
-  - destruct (st_calls s1) as [|fr rest]; [discriminate|]. destruct (fr_clo fr) as [fa|]; [|discriminate].
-    destruct (hget (st_heap s1) fa) as [[| | | |fh far fups|]|]; try discriminate.
-    destruct (nth_error fups _); [|discriminate]. inversion H; subst. apply Hclo. apply same_tables_refl.
+  - destruct (st_calls s1) as [|fr rest]; [dis H|]. destruct (fr_clo fr) as [fa|]; [|dis H].
+    destruct (hget (st_heap s1) fa) as [[| | | |fh far fups|]|]; try dis H.
+    destruct (nth_error fups _); [|dis H]. cbn [res_st] in H. inversion H; subst. apply Hclo. apply same_tables_refl.
 Qed.
 
 End HeapSame.
@@ -238,20 +255,21 @@ End HeapSame.
 (* heap_acyclic is kept by every instruction except SetProperty (33), AppendTable (40) and the natives
    (CallNative 4, CallFunction 11 of a native function value); for 33 / 40 see set_property_ranked,
    append_table_ranked (C04VmProofs8.v) *)
-Theorem step_keeps_acyclic : forall F bld P reenter ip0 s ip' s',
-  step F bld P reenter ip0 s = SNext ip' s' ->
+Theorem step_keeps_acyclic : forall F bld P reenter ip0 s s',
+  res_st (step F bld P reenter ip0 s) = Some s' ->
   heap_acyclic (st_heap s) -> heap_closed (st_heap s) ->
   ~ In (opcode_at P ip0) [4; 33; 40]%N ->
   (opcode_at P ip0 = 11%N -> forall a h, top1 s = VObj a -> hget (st_heap s) a <> Some (ONative h)) ->
   heap_acyclic (st_heap s').
 Proof.
-  intros F bld P reenter ip0 s ip' s' H Hac Hc Hnot H11. unfold step in H. cbv zeta in H.
+  intros F bld P reenter ip0 s s' H Hac Hc Hnot H11. unfold step in H. cbv zeta in H.
   fold (opcode_at P ip0) in H. remember (opcode_at P ip0) as k eqn:Ek.
   assert (Heq : forall h', h' = st_heap s -> heap_acyclic h') by (intros h' ->; exact Hac).
   assert (Htab : forall h', same_tables (st_heap s) h' -> heap_acyclic h').
   { intros h' Hs. eapply heap_acyclic_same_tables; eauto. }
   destruct k as [|p]; [|do 6 (try destruct p as [p|p|])]; try discriminate H;
     try (exfalso; apply Hnot; cbn [In]; tauto).
+  all: try (match type of H with res_st (SExit _) = _ => cbn [res_st] in H; inversion H; subst; exact Hac end).
   all: try (apply Heq;
     match type of H with
     | context [binary_op] => eapply binary_op_heap; exact H
@@ -289,5 +307,5 @@ Proof.
     | context [i_41] => destruct Hac as [rk Hr]; exists rk; eapply pop_table_ranked; eauto
     end).
   (* Pop *)
-  inversion H; subst. apply Heq. destruct (spop s) as [s1 v] eqn:E. cbn [fst]. eapply spop_heap; eauto.
+  cbn [res_st] in H. inversion H; subst. apply Heq. destruct (spop s) as [s1 v] eqn:E. cbn [fst]. eapply spop_heap; eauto.
 Qed.
